@@ -315,6 +315,37 @@ class RoundTrip(Base):
             return "v_roundtrip %s %s" % (l, cQ(max(TOL_PX, xtol * nrm)))
         return "v_roundtrip %s %s" % (l, cQ(TOL_PX))
 
+    def classify(self, c, out, v):
+        return classify_roundtrip(c, out)
+
+
+KF_ROOT_START = "C10.rootfinder-start-coordinate-near-zero"
+
+
+def classify_roundtrip(c, out):
+    """known-finding class of a failing round trip: root finding (any xtol) returned essentially its START value
+    (the undistorted inverse) for every failing position, and that start value has a coordinate with 0 < |c| < 0.1 px
+    (MINPACK's forward-difference step 1.5e-8 * |c| is then below the round-off of the residual, the estimated Jacobian
+    column vanishes and hybrd stops at once with ier = 1).  Decided from the case and the real code's own values."""
+    if "err" in out or c.get("mode") not in ("find", "find-dflag") or out.get("rms") is not None:
+        return None
+    tol = TOL_PX
+    if c.get("xtol") is not None and c["xtol"] > XTOL_STATEMENT:
+        tol = max(TOL_PX, c["xtol"] * max([1.0] + [max(abs(p[0]), abs(p[1])) for p in out["pairs"]]))
+    bad = [p for p in out["pairs"] if math.hypot(p[2] - p[0], p[3] - p[1]) >= tol]      # exactly the points the checker rejects
+    if not bad:
+        return None
+    try:
+        w = mk(c["header"])
+        for x, y, xb, yb in bad:
+            lon, lat = w.image2sky(x, y)
+            gx, gy = [float(t) for t in w.sky2image(lon, lat, find=False, distort=False)]
+            if math.hypot(xb - gx, yb - gy) > 1e-3 or not (0.0 < min(abs(gx), abs(gy)) < 0.1):
+                return None
+    except Exception:       # noqa
+        return None
+    return KF_ROOT_START
+
 
 class ScalarArray(Base):
     """scalar calls and one array call give identical numbers"""
